@@ -34,6 +34,8 @@ CAL_BODIES = {
     "X2": ics("uid-1", "alphb"),  # differs from X in a single byte
     "XR": ics("uid-1", "alpha", order="reversed"),
     "Z": ics("uid-2", "zulu"),
+    # text outside the Basic Multilingual Plane (emoji, mathematical letters, CJK extension B) next to Latin-1 and BMP CJK
+    "ZE": ics("uid-2", "zulu \U0001F600 \U0001D518 \U00020000 \u00e9 \u65e5"),
     "T": ics("uid-3", "todo", comp="VTODO"),
     "BAD": b"this is not a calendar\r\n",
     "TRUNC": ics("uid-9", "trunc")[:-16],
@@ -88,6 +90,7 @@ CAL_BODIES["R2"] = ics_repeated("uid-1", "repeated", ["ann", "bob", "dan"], [3, 
 
 CARD_BODIES = {
     "K": vcf("card-1", "Jo Doe"),
+    "KE": vcf("card-1", "Jo \U0001F600 \U00020000 Doe"),
     "K2": vcf("card-1", "Jo Dof"),
     "L": vcf("card-2", "Li Roe"),
     "KBAD": b"FN:no begin\r\n",
